@@ -696,8 +696,10 @@ def hub_cases(rng, tier, extended=False):
     bases = rng.sample([2 ** 15, 2 ** 16], 2)
     for kind, base in list(zip(big_kinds, bases))[:2 if wide else 1]:
         mesh = gen.gen_hub(rng, kind, base + rng.randint(1, 300))
-        out.append({'mesh': mesh, 'queries': hub_queries(rng, nodal_only=True, hops=False),
-                    'oracle_only': True, 'stagewise': False})
+        qs = hub_queries(rng, nodal_only=True, hops=False)
+        if not wide:         # quick: incidence, adjacency, Laplacian, e2v
+            qs = [q for q in qs if q['kind'] != 'grad' and not (q['kind'] == 'e2v' and q['self_loop'])]
+        out.append({'mesh': mesh, 'queries': qs, 'oracle_only': True, 'stagewise': False})
     if tier == 'thorough':
         for kind in kinds[:2]:
             mesh = gen.gen_hub(rng, kind, rng.randint(129, 132), n_unref=0)
@@ -896,7 +898,8 @@ def gen_cases(ctx):
     # remove_useless_nodes) / the same queries again on ONE object; the model is
     # evaluated on the mesh as modified
     base = [c for c in cases if not c.get('shared') and not c.get('oracle_only')
-            and not is_big(c['mesh']) and not c['mesh']['tags'].get('malformed')]
+            and not is_big(c['mesh']) and not c['mesh']['tags'].get('malformed')
+            and not str(c['mesh']['tags'].get('kind')).startswith('type-sweep')]
     for c in base[1::4]:
         h = history_case(ctx.rng, c)
         h['id'] = len(cases)
